@@ -26,7 +26,12 @@ Utf8(cp) ==
 
 IsScalar(cp) == cp \in 0..1114111 /\ ~(cp \in 55296..57343)
 
-Utf8Str(cps) == FlattenSeq([i \in 1..Len(cps) |-> Utf8(cps[i])])
+\* concatenation by halving: recursion depth log n, n log n copying (FlattenSeq recurses n deep)
+RECURSIVE Utf8Range(_, _, _)
+Utf8Range(cps, lo, hi) == IF lo > hi THEN <<>>
+                          ELSE IF lo = hi THEN Utf8(cps[lo])
+                          ELSE LET m == (lo + hi) \div 2 IN Utf8Range(cps, lo, m) \o Utf8Range(cps, m + 1, hi)
+Utf8Str(cps) == Utf8Range(cps, 1, Len(cps))
 
 IsCont(x) == x >= 128 /\ x < 192
 \* number of bytes announced by a lead byte, 0 = not a lead byte
